@@ -6,7 +6,7 @@ from comp.cmdline import gen
 
 RULE = ("command lines in exact-size heap buffers (ASan redzone right after the last byte), option names likewise; "
         "options are recording callbacks or the real helpers store_true/store_false/as_string_view/as_number<T> with "
-        "exact-size heap targets; quick: every byte string of length <= 4 over {'\"','=',' ','a'} under 5 option tables + a sample of lengths 5..8 + "
+        "exact-size heap targets; quick: every byte string of length <= 4 over {'\"','=',' ','a'} under 6 option tables (one with NULL-handler entries, flag- and value-shaped) + a sample of lengths 5..8 + "
         "grammar-based longer lines with quote/space/'=' mutations; thorough: every string of length <= 6; "
         "non-trivial = distinct script whose command line contains a quote or whose run invoked at least one callback")
 TRUSTED = ["extraction: ExtrOcamlBasic only; OCaml 4.13.1; comp/cmdline/driver.ml",
@@ -14,7 +14,7 @@ TRUSTED = ["extraction: ExtrOcamlBasic only; OCaml 4.13.1; comp/cmdline/driver.m
            "oracle: ASan/UBSan, termination (timeout), callback views inside the command-line buffer, helper targets in exact-size heap objects",
            "modelled, not verified: the range-for over the option table as a list; option callbacks as output events "
            "(option targets are written only inside the callbacks of cmdline.hpp)"]
-ASSUMPTIONS = ["the command-line view and the option-name views lie inside their buffers", "fn.ptr of every option is non-null"]
+ASSUMPTIONS = ["the command-line view and the option-name views lie inside their buffers"]
 
 def nontrivial(cid, lines, ri):
     p = [l for l in lines if l.startswith("parse ")]
@@ -49,6 +49,7 @@ def run(c):
         c.count("cmdline_cases")
         c.count("cmdline_options", sum(1 for l in ls if l.startswith("opt ")))
         c.count("cmdline_helper_options", sum(1 for l in ls if l.startswith("ropt ")))
+        c.count("cmdline_null_handler_options", sum(1 for l in ls if l.startswith("nopt ")))
         for l in ls:
             if l.startswith("parse "):
                 h = l.split()[1]
